@@ -12,6 +12,7 @@ mod c08;
 mod c09;
 mod fast;
 mod c10;
+mod c11;
 mod c12;
 mod c13;
 mod c14;
@@ -36,6 +37,7 @@ fn main() {
         "c08" => c08::run(&args),
         "c09" => c09::run(&args),
         "c10" => c10::run(&args),
+        "c11" => c11::run(&args),
         "c12" => c12::run(&args),
         "c13save" => c13::save_cmd(&args),
         "c13loop" => c13::loop_cmd(&args),
